@@ -1121,7 +1121,9 @@ impl DB {
         }
 
         let mut was_memtable_reused = false;
-        if self.options.reuse_log_files() && is_last_wal && num_compactions == 0 {
+        // A log with a torn or corrupted tail cannot be appended to
+        let is_wal_intact = wal_reader.has_read_entire_file().unwrap_or(false);
+        if self.options.reuse_log_files() && is_last_wal && num_compactions == 0 && is_wal_intact {
             log::info!("Reusing WAL file: {wal_path:?}.", wal_path = &wal_path);
             drop(wal_reader);
             if let Ok(wal_writer) =
